@@ -548,6 +548,15 @@ def _root(a, p, q):
         for _ in range(q):
             rq = rq * r
         ctx.add_def(And(r >= 0, rq == ap))
+        if a.is_const():
+            # an irrational constant: give the solver a tight rational enclosure as well (sound: checked exactly), so
+            # that sign questions about linear combinations of such roots close by linear reasoning
+            val = float(a.const()) ** (p / q)
+            for scale in (10 ** 12, 10 ** 9, 10 ** 6):
+                lo, hi = Fraction(math.floor(val * scale) - 1, scale), Fraction(math.floor(val * scale) + 2, scale)
+                if lo >= 0 and lo ** q < a.const() ** p < hi ** q:
+                    ctx.add_def(And(r > lo, r < hi))
+                    break
     else:
         ctx.redefine(ck)
     return r
@@ -787,10 +796,12 @@ class Ctx:
         nl = self.nonlinear or (isinstance(extra, SymBool) and extra.degree() > 1)
         rs = "unknown"
         if nl:
-            rs = self._check_nl(extra, budget)
+            # nlsat with a short budget, then the incremental core (which closes enclosure-style questions by linear
+            # reasoning), then nlsat with the full budget
+            rs = self._check_nl(extra, min(budget, 2500))
         if rs == "unknown":
             s = self.solver
-            s.set("timeout", min(budget, 2000) if nl else budget)
+            s.set("timeout", min(budget, 2500) if nl else budget)
             if extra is None:
                 r = s.check()
                 if r == z3.sat:
@@ -803,6 +814,8 @@ class Ctx:
                     self._last_model = s.model()
                 s.pop()
             rs = str(r)
+        if rs == "unknown" and nl and budget > 2500:
+            rs = self._check_nl(extra, budget)
         st.solver_s += time.perf_counter() - t0
         if rs == "unknown":
             st.unknown += 1
